@@ -74,7 +74,12 @@ def add_step(p0: int, p1: int, p2: int, p3: int, p4: int, p5: int, p: int, j: in
     snap_d = list(m.systems.systems.items())
     raised = None
     try:
-        m.systems.add_system(new)
+        if hx.P.get('alias'):
+            import warnings
+            warnings.simplefilter("ignore")
+            m.systems.addSystem(new)           # deprecated alias of add_system
+        else:
+            m.systems.add_system(new)
     except KeyError:
         raised = 'KeyError'
     out = m.systems.execution_queue
@@ -99,7 +104,10 @@ def add_step(p0: int, p1: int, p2: int, p3: int, p4: int, p5: int, p: int, j: in
         if not _same_registry(m.systems.systems, snap_d + [(new_id, new)]):
             return hx.end(hx.fail("registry", got=list(m.systems.systems)))
     # observable effect: one timestep runs the systems in exactly that order
-    m.execute()
+    if hx.P.get('alias'):
+        m.systems.executeSystems()             # deprecated alias of execute_systems
+    else:
+        m.execute()
     if m.log != [s.id for s in exp]:
         return hx.end(hx.fail("execution order", got=m.log, exp=[s.id for s in exp]))
     return hx.end(True)
@@ -120,7 +128,12 @@ def remove_step(p0: int, p1: int, p2: int, p3: int, p4: int, p5: int, j: int) ->
     rid = "ghost" if j < 0 else "s%d" % j
     raised = None
     try:
-        m.systems.remove_system(rid)
+        if hx.P.get('alias'):
+            import warnings
+            warnings.simplefilter("ignore")
+            m.systems.removeSystem(rid)        # deprecated alias of remove_system
+        else:
+            m.systems.remove_system(rid)
     except SystemNotFoundError:
         raised = 'SystemNotFoundError'
     out = m.systems.execution_queue
@@ -333,12 +346,13 @@ def obligations(tier):
     N = 5 if tier == "quick" else 6
     kinds = ['sys', 'col', 'sys_default', 'col_default']
     obs = [
-        X("add_step", add_step, parts=[{"n": n, "kind": k} for n in range(N + 1) for k in kinds if not (n < N and k == 'col' and n % 2)],
+        X("add_step", add_step, parts=[{"n": n, "kind": k} for n in range(N + 1) for k in kinds if not (n < N and k == 'col' and n % 2)] +
+          [{"n": 3, "kind": "sys", "alias": True}],
           labels=("insert", "collide"), labels_for=lambda p: ("insert", "collide") if p["n"] else ("insert",),
           timeout=120, group=4,
           encoded=(SystemManager.add_system, SystemManager.execute_systems, System.__init__, Collector.__init__, Collector.execute),
           bounds={"n": "0..%d" % N, "priorities": "all ints", "collision index": "any entry or fresh"}),
-        X("remove_step", remove_step, parts=[{"n": n} for n in range(N + 1)], labels=("remove", "unknown"),
+        X("remove_step", remove_step, parts=[{"n": n} for n in range(N + 1)] + [{"n": 3, "alias": True}], labels=("remove", "unknown"),
           timeout=120, group=2, encoded=(SystemManager.remove_system, SystemManager.execute_systems),
           bounds={"n": "0..%d" % N}),
         X("exec_order", exec_order, parts=[{"n": n} for n in range(0, (3 if tier == "quick" else 4) + 1)],
